@@ -2,7 +2,7 @@ import z3, sys, time, subprocess
 from gvc.core import props
 from gvc.core.goverify import GoVerifier
 spec,_=props.load_specs()
-keys=[c.key for c in spec.contracts if c.kind=='func']
+keys=sorted({c.key.split('#lit')[0] for c in spec.contracts if c.kind=='func'})
 dump=props.run_astdump(sorted({props.pkg_of_key(k) for k in keys}),keys)
 v=GoVerifier(dump,spec); v.load_axioms()
 fn=sys.argv[1]
